@@ -166,3 +166,42 @@ Example C02_op_examples :
   /\ run_op OpDelete [] (T "a b") (MBackEnd false) 2 2 = mkO (T "a b") 0 None
   /\ o_text (run_lines OpDelete [] (T "a" ++ [10] ++ T "b" ++ [10] ++ T "c") 2 0) = T "c".
 Proof. vm_compute. repeat split. Qed.
+
+(** (12) [p] / [P]: a characterwise register is put in one place, [count] copies of it, and nothing else changes; whole
+    lines go between lines; an empty register changes nothing; and what [d] took goes back with [P] where it was. *)
+Theorem C02_put_char_locality :
+  forall (after : bool) (count : nat) (s : ostate) (r : text),
+    o_reg s = Some (false, r) -> r <> [] ->
+    exists at_, (at_ <= length (o_text s))%nat /\
+      o_text (put after count s) = firstn at_ (o_text s) ++ repeat_text (Nat.max count 1) r ++ skipn at_ (o_text s) /\
+      o_reg (put after count s) = o_reg s.
+Proof. exact put_char_locality. Qed.
+Print Assumptions C02_put_char_locality.
+Theorem C02_put_lines_locality :
+  forall (after : bool) (count : nat) (s : ostate) (r : text),
+    o_reg s = Some (true, r) ->
+    let t := o_text s in
+    let i := Nat.min (o_cur s) (length t) in
+    let ins := repeat_text (Nat.max count 1) r in
+    let body := firstn (length ins - 1) ins in
+    o_text (put after count s)
+    = (if after then firstn (line_end t i) t ++ [nl] ++ body ++ skipn (line_end t i) t
+       else firstn (line_start_from t i) t ++ body ++ [nl] ++ skipn (line_start_from t i) t).
+Proof. exact put_lines_locality. Qed.
+Print Assumptions C02_put_lines_locality.
+Theorem C02_delete_then_put_restores :
+  forall (ins : text) (s : ostate) (lo0 hi0 : nat),
+    let t := o_text s in
+    let s' := apply_op OpDelete ins s (RChar lo0 hi0) in
+    (clo t lo0 hi0 < chi t hi0)%nat -> o_cur s' = clo t lo0 hi0 ->
+    o_text (put false 1 s') = t.
+Proof. exact delete_then_put_restores. Qed.
+Print Assumptions C02_delete_then_put_restores.
+
+(** xP in the middle of a line and ddP give the text back; yyp doubles the line *)
+Example C02_put_examples :
+  o_text (put false 1 (run_op OpDelete [] (T "abc") MRight 1 1)) = T "abc"
+  /\ o_text (put false 1 (run_lines OpDelete [] (T "a" ++ [10] ++ T "b") 1 0)) = T "a" ++ [10] ++ T "b"
+  /\ o_text (put true 1 (run_lines OpYank [] (T "a" ++ [10] ++ T "b") 1 0)) = T "a" ++ [10] ++ T "a" ++ [10] ++ T "b"
+  /\ o_text (put true 3 (run_op OpYank [] (T "ab") MRight 1 0)) = T "aaaab".
+Proof. vm_compute. repeat split. Qed.
